@@ -22,7 +22,7 @@ from fractions import Fraction
 import numpy as np
 
 PROP = 'C19'
-TARGETS = ['T12', 'T13a', 'T13c', 'T13n', 'T19a', 'T19b', 'T19s', 'T19m', 'T19l', 'T19t', 'T19q']
+TARGETS = ['T12', 'T13a', 'T13c', 'T13n', 'T19a', 'T19b', 'T19s', 'T19m', 'T19l', 'T19t', 'T19q', 'T19f']
 LEAN_MODULES = ['HdVerif.Props.C19']
 MODEL_MODULES = ['HdVerif.Model.PMap']
 NAMESPACE = 'HdVerif.C19'
@@ -554,6 +554,20 @@ def _check_pm(ctx, idx, reqs, pending):
                                                                       'got': np.asarray(v, dtype=np.float64).reshape(-1)[:8].tolist(),
                                                                       'want': exp.reshape(-1)[:8].tolist()}), f, float=is_float, mapping=m['kind'],
                         single_lut=_is_single(target))
+                # the same frame addressed by its 0-based INDEX: same stored values, same (its own channel's) mapping
+                s5i, vi = _try(im.get_frame, f, as_index=True, apply_real_world_transform=True, real_world_value_map_selector=selector)
+                if exp is None:
+                    if s5i == 'ok' and not is_float:
+                        obs(f'{tag}/rwvm-as-index', False, 'values outside the mapped range were mapped silently (as_index=True)', f,
+                            mapping=m['kind'])
+                else:
+                    good = s5i == 'ok' and np.asarray(vi).shape == exp.shape and bool(np.array_equal(np.asarray(vi, dtype=np.float64), exp))
+                    obs(f'{tag}/rwvm-as-index', good,
+                        (vi if s5i != 'ok' else {'what': 'get_frame(index, as_index=True) with the real-world transform differs from '
+                                                          'mapping %s of channel %d' % (target['label'], j),
+                                                 'got': np.asarray(vi, dtype=np.float64).reshape(-1)[:8].tolist(),
+                                                 'want': exp.reshape(-1)[:8].tolist()}), f, float=is_float, mapping=m['kind'],
+                        single_lut=_is_single(target))
                 if not lazy and d['ts'] in NATIVE and not is_float:
                     queries.append(dict({'q': 'real', 'f': f}, **_sel_json(selector)))
                     impl['answers'].append([_rat(float(t)) for t in np.asarray(v, dtype=np.float64).reshape(-1)] if s5 == 'ok' else 'err')
@@ -603,6 +617,34 @@ def _check_pm(ctx, idx, reqs, pending):
                     sl = arr[vpos.index(key)]
                     okv = okv and bool(np.array_equal(sl, planes[i].astype(np.float64), equal_nan=True))
                 obs(f'{tag}/get_volume', okv, 'volume slices differ from the planes at the same position', None, float=is_float)
+                # the volume with the real-world transform, for EVERY mapping of the channel and every spelling of the selector
+                # (index, negative index, label, unit): the selector must reach the transform as it does through get_frame(s)
+                if okv and not is_float:
+                    for k, m in enumerate(desc[0]):
+                        for selector in (k, k - len(desc[0]), m['label'], Code(m['unit'], 'UCUM', m['unit'])):
+                            target = m
+                            if isinstance(selector, Code):
+                                target = next(mm for mm in desc[0] if mm['unit'] == m['unit'])
+                            exps = [_expected_real(planes[i], target) for i in range(N)]
+                            s10, vol2 = _try(im.get_volume, dtype=np.float64, apply_real_world_transform=True,
+                                             real_world_value_map_selector=selector, allow_missing_positions=True)
+                            skind = type(selector).__name__ + ('-' if isinstance(selector, int) and selector < 0 else '')
+                            if any(e is None for e in exps):
+                                ctx.case(kind='pm', path=f'{tag}/rwvm-volume-outside', outcome='refused' if s10 != 'ok' else 'values')
+                                if s10 == 'ok':
+                                    obs(f'{tag}/rwvm-volume', False, 'a volume with values outside the mapped range was mapped silently', None)
+                                continue
+                            good = s10 == 'ok'
+                            if good:
+                                arr2 = np.asarray(vol2.array)
+                                vpos2 = [tuple(round(float(x), 6) for x in p_[0].ImagePositionPatient) for p_ in vol2.get_plane_positions()]
+                                for i in range(N):
+                                    key = tuple(round(float(x), 6) for x in pos[i])
+                                    good = good and key in vpos2 and bool(np.array_equal(arr2[vpos2.index(key)], exps[i]))
+                            obs(f'{tag}/rwvm-volume', good,
+                                vol2 if s10 != 'ok' else f'get_volume with selector {selector!r} differs from mapping {target["label"]} '
+                                                          f'(the channel has {len(desc[0])} mappings)',
+                                None, mapping=m['kind'], selector=skind, single_lut=_is_single(target))
     reqs.append(_pm_request(a, desc, nested, len(desc), pos, len(pos), d['ts'], queries))
     pending.append((case, 'pm', impl))
 
@@ -1057,6 +1099,7 @@ def run(ctx):
             ctx.note(f'section {f.__name__} crashed: ' + traceback.format_exc()[-600:])
     section(_mapping_cells, ctx, reqs, pending)
     section(_lut1_witness, ctx)
+    section(_selector_scenarios, ctx)
     section(_pm_refusals, ctx, reqs, pending)
     for idx in range(ctx.n(60, 2500)):
         if len(crashed) > 3:
@@ -1140,6 +1183,78 @@ def _lut1_witness(ctx):
             ctx.fail(dict(case, path=f'{tag}/rwvm'), v if st != 'ok' else 'differs', site=f'{tag}/rwvm')
 
 
+def _selector_scenarios(ctx):
+    """fixed scenarios, run in every tier and seed: (a) a 3-plane map whose channel has three alternative mappings (two linear, one
+    table), read as a VOLUME with every mapping selected in every spelling (index, negative index, label, unit) and compared with
+    the same selector through get_frames; (b) a 2-plane, 2-channel map with different mappings per channel, every frame read by
+    NUMBER and by INDEX (as_index=True) with the real-world transform"""
+    import highdicom as hd
+    from highdicom.pm import ParametricMap, RealWorldValueMapping
+    from pydicom.sr.codedict import codes
+    from pydicom.sr.coding import Code
+    from gen.sources import ct_series
+    units = [codes.UCUM.NoUnits, codes.UCUM.Millimeter, codes.UCUM.Second]
+    # (a)
+    src = ct_series(3, 3, 4)
+    arr = (np.arange(36, dtype=np.uint8).reshape(3, 3, 4) % 16)
+    lut = [float(2 * i) + 0.5 for i in range(16)]
+    desc = [{'kind': 'linear', 'label': 'one', 'first': 0, 'last': 255, 'slope': 1.0, 'intercept': 0.0, 'unit': units[0].value},
+            {'kind': 'linear', 'label': 'two', 'first': 0, 'last': 255, 'slope': 2.0, 'intercept': -3.0, 'unit': units[1].value},
+            {'kind': 'lut', 'label': 'three', 'first': 0, 'last': 15, 'lut': lut, 'unit': units[2].value}]
+    maps = [RealWorldValueMapping(m['label'], 'e', units[k], (m['first'], m['last']),
+                                  **({'lut_data': m['lut']} if m['kind'] == 'lut' else {'slope': m['slope'], 'intercept': m['intercept']}))
+            for k, m in enumerate(desc)]
+    pm = ParametricMap(src, arr, hd.UID(), 1, hd.UID(), 1, 'm', 'mm', '1', 'sn', False, maps, 0.5, 1.0)
+    blob = _written(pm)
+    pos = [tuple(round(float(v), 6) for v in s_.ImagePositionPatient) for s_ in src]
+    for lazy in (False, True):
+        tag = 'lazy' if lazy else 'eager'
+        im = hd.imread(io.BytesIO(blob), lazy_frame_retrieval=lazy)
+        for k, m in enumerate(desc):
+            for selector in (k, k - len(desc), m['label'], Code(m['unit'], 'UCUM', m['unit'])):
+                case = {'kind': 'pm', 'scenario': 'selectors', 'path': f'{tag}/rwvm-volume', 'mapping': m['label'],
+                        'selector': repr(selector)[:40]}
+                exps = [_expected_real(arr[i], m) for i in range(3)]
+                s1, vol = _try(im.get_volume, dtype=np.float64, apply_real_world_transform=True, real_world_value_map_selector=selector)
+                s2, frs = _try(im.get_frames, [1, 2, 3], dtype=np.float64, apply_real_world_transform=True,
+                               real_world_value_map_selector=selector)
+                ok = s1 == 'ok' and s2 == 'ok'
+                if ok:
+                    a2 = np.asarray(vol.array)
+                    vpos = [tuple(round(float(x), 6) for x in p_[0].ImagePositionPatient) for p_ in vol.get_plane_positions()]
+                    for i in range(3):
+                        ok = ok and pos[i] in vpos and bool(np.array_equal(a2[vpos.index(pos[i])], exps[i])) \
+                            and bool(np.array_equal(np.asarray(frs)[i], exps[i]))
+                ctx.case(kind='pm', path=f'{tag}/rwvm-volume', outcome='ok' if ok else 'FAIL', mapping=m['kind'],
+                         selector=type(selector).__name__)
+                if not ok:
+                    ctx.fail(case, vol if s1 != 'ok' else (frs if s2 != 'ok' else
+                             f'get_volume / get_frames with selector {selector!r} differ from mapping {m["label"]}'), site=f'{tag}/rwvm-volume')
+    # (b)
+    src = ct_series(2, 3, 4)
+    arr4 = (np.arange(48, dtype=np.uint8).reshape(2, 3, 4, 2) % 16)
+    chans = [[{'kind': 'linear', 'label': 'L', 'first': 0, 'last': 255, 'slope': 1.0, 'intercept': 0.0}],
+             [{'kind': 'linear', 'label': 'L', 'first': 0, 'last': 255, 'slope': 4.0, 'intercept': 7.0}]]
+    maps4 = [[RealWorldValueMapping('L', 'e', units[0], (0, 255), slope=c[0]['slope'], intercept=c[0]['intercept'])] for c in chans]
+    pm = ParametricMap(src, arr4, hd.UID(), 1, hd.UID(), 1, 'm', 'mm', '1', 'sn', False, maps4, 0.5, 1.0)
+    blob = _written(pm)
+    for lazy in (False, True):
+        tag = 'lazy' if lazy else 'eager'
+        im = hd.imread(io.BytesIO(blob), lazy_frame_retrieval=lazy)
+        for f in range(4):
+            i, j = divmod(f, 2)
+            exp = _expected_real(arr4[i, :, :, j], chans[j][0])
+            for how, call in (('number', lambda: im.get_frame(f + 1, apply_real_world_transform=True)),
+                              ('index', lambda: im.get_frame(f, as_index=True, apply_real_world_transform=True))):
+                s1, v = _try(call)
+                ok = s1 == 'ok' and bool(np.array_equal(np.asarray(v, dtype=np.float64), exp))
+                ctx.case(kind='pm', path=f'{tag}/rwvm-as-index' if how == 'index' else f'{tag}/rwvm', outcome='ok' if ok else 'FAIL')
+                if not ok:
+                    ctx.fail({'kind': 'pm', 'scenario': 'selectors', 'path': f'{tag}/rwvm-by-{how}', 'frame': f},
+                             v if s1 != 'ok' else f'frame {f} (channel {j}) read by {how} is not mapped with its channel\'s mapping',
+                             site=f'{tag}/rwvm-by-{how}')
+
+
 def replay(ctx, case):
     """Re-run one stored case (a pure function of seed, tier, stream and index) on the implementation; returns the oracle
     failures of that case, or None when it passes on the current tree.  Failures that
@@ -1166,6 +1281,8 @@ def replay(ctx, case):
             _float_witness(sub)
         elif case.get('scenario') == 'lut1':
             _lut1_witness(sub)
+        elif case.get('scenario') == 'selectors':
+            _selector_scenarios(sub)
         elif kind == 'pm' and 'idx' in case:
             _check_pm(sub, case['idx'], reqs, pending)
         elif kind == 'sc':
